@@ -259,6 +259,59 @@ def build_T15c(tree):
     return '\n\n'.join(parts), hashlib.sha256(''.join(shas).encode()).hexdigest()
 
 
+# ---------------------------------------------------------------- T15d: attributes of the parsed root item
+def build_T15d(tree):
+    """sr/sop.py::_SR.from_dataset: which attributes of the document are put on the root content item that `.content`
+    exposes, and from which object they are taken.
+      Gen.srParsedRootAttributes : List (String × Bool)   (keyword, copied only when present)
+      Gen.srParsedRootSource : String                     the object every one of them is read from
+    Shape checks: the template identification is copied before (outside) the test for TID 1500; all three parser calls
+    get `[root_item]` and `copy=False`."""
+    from py2lean import lean_table
+    fn = find_func(tree, '_SR.from_dataset')
+    body = strip_doc(fn.body)
+    rows, sources = [], set()
+
+    def take(st, conditional):
+        if isinstance(st, ast.Assign) and isinstance(st.targets[0], ast.Attribute) and ast.unparse(st.targets[0].value) == 'root_item' \
+                and isinstance(st.value, ast.Attribute) and st.value.attr == st.targets[0].attr:
+            rows.append((st.targets[0].attr, conditional))
+            sources.add(ast.unparse(st.value.value))
+            return True
+        return False
+    for st in body:
+        if take(st, False):
+            continue
+        if isinstance(st, ast.For) and isinstance(st.iter, (ast.Tuple, ast.List)) and ast.unparse(st.target) == 'keyword':
+            txt = ' '.join(ast.unparse(st).split())
+            m = None
+            for src_name in ('sop_instance', 'dataset'):
+                if f'if keyword in {src_name}: setattr(root_item, keyword, {src_name}[keyword].value)' in txt:
+                    m = src_name
+            if m is None:
+                raise Unsupported('from_dataset: keyword loop changed')
+            sources.add(m)
+            for e in st.iter.elts:
+                rows.append((e.value, True))
+        if isinstance(st, ast.Try):
+            first = st.body[0]
+            if not take(first, True) or rows[-1][0] != 'ContentTemplateSequence':
+                raise Unsupported('from_dataset: the try block no longer starts by copying ContentTemplateSequence onto the root item')
+            txt = ' '.join(ast.unparse(st).split())
+            if txt.count('[root_item]') != 3 or txt.count('copy=False') != 3:
+                raise Unsupported('from_dataset: parser calls changed')
+            if "tid_item.TemplateIdentifier == '1500'" not in txt or 'except AttributeError' not in txt:
+                raise Unsupported('from_dataset: TID 1500 dispatch changed')
+    if len(sources) != 1:
+        raise Unsupported(f'from_dataset: root attributes are read from several objects: {sorted(sources)}')
+    t1 = lean_table('srParsedRootAttributes', 'List (String × Bool)',
+                    [f'("{k}", {"true" if c else "false"})' for k, c in rows],
+                    doc='`_SR.from_dataset`: attributes put on the parsed root content item (keyword, only when present)')
+    t2 = f'/-- `_SR.from_dataset`: the object the root attributes are read from -/\ndef srParsedRootSource : String := "{sources.pop()}"'
+    return t1 + '\n\n' + t2, hashlib.sha256(ast.unparse(fn).encode()).hexdigest()
+
+
 TARGETS = {'T15a': {'file': 'sr/sop.py', 'build': build_T15a},
+           'T15d': {'file': 'sr/sop.py', 'build': build_T15d},
            'T15c': {'file': 'sr/utils.py', 'build': build_T15c},
            'T15b': {'file': 'sr/utils.py', 'build': build_T15b}}
